@@ -739,3 +739,30 @@ package core
 //@   assert[C03.pattern_searches_the_bound_pattern] at "loc.SearchLocations(ctx, locations, m)": is(bound, map[string]interface{}) && m == bound.(map[string]interface{})
 //@   assert[C03.pattern_binds_each_incoming_binding] at "bs.Bind(ctx, interface{}(p.Pattern))": true
 //@   assert[C03.pattern_extends_incoming_binding]   at "ExtendBindings(ctx, &bs, &more)": true
+
+// ---- C05: rulio's own code on the matching path (the sheens matcher itself is an opaque dependency) ----
+//@ ghost matchIn []Bindings
+//@ ghost matchOutLen int
+//@ ghost matchErr error
+//@ ghost matchPat interface{}
+//@ ghost matchFact interface{}
+//@ extern (*github.com/Comcast/sheens/match.Matcher).Match
+//@   ghost-ensures matchOutLen == len(result0) && matchErr == result1 && matchPat == pattern && matchFact == fact
+//@   also-modifies matchOutLen, matchErr, matchPat, matchFact
+//@   pure-effects
+//@ func (SheensMatcher).Match
+//@   ensures[C05.sheens_returns_every_binding_set] len(result0) == matchOutLen
+//@   ensures[C05.sheens_returns_the_error]         result1 == matchErr
+//@   ensures[C05.sheens_passes_pattern_and_fact]   matchPat == pattern && matchFact == fact
+//@ ghost castCalls int
+//@ func cast
+//@   ensures[C05.cast_map_is_a_fresh_copy]   is(iface, map[string]interface{}) || is(iface, Map) ==> is(result, map[string]interface{}) && fresh(result.(map[string]interface{}))
+//@   ensures[C05.cast_array_is_a_fresh_copy] is(iface, []interface{}) ==> is(result, []interface{}) && fresh(arr(result.([]interface{}))) && len(result.([]interface{})) == len(iface.([]interface{}))
+//@   ensures[C05.cast_scalar_unchanged]      is(iface, string) || is(iface, float64) || is(iface, bool) || iface == nil ==> result == iface
+//@   ghost-ensures castCalls == old(castCalls) + 1
+//@   also-modifies castCalls
+//@   modifies nothing
+//@ func (CastMatcher).Match
+//@   ensures[C05.castmatcher_casts_both_each_call] castCalls == old(castCalls) + 2
+//@ func Matches
+//@   assert[C05.matches_starts_from_empty_bindings] at "DefaultMatcher.Match(pattern, fact, map[string]interface{}{})": true
